@@ -44,7 +44,7 @@ def cleanup(ctx):
 
 
 def units(ctx):
-    for tpb in TPBS:
+    for tpb in (TPBS if ctx["tier"] == "quick" else TPBS + [1, 3, 96 * 5, 120, 192, 384, 960, 25]):
         for d0 in DELTAS:
             for d1 in DELTAS:
                 yield ("R", tpb, d0, d1)
